@@ -8,5 +8,6 @@ import Fpy.Model.Num.Round
 import Fpy.Proof.Round
 import Fpy.Proof.Stochastic
 import Fpy.Props.C01
+import Fpy.Props.C04
 import Fpy.Props.C17
 import Fpy.Spec.Rounding
